@@ -252,11 +252,14 @@ def r11_3(ctx, rep, roles, P="C11"):
         ws = row.writes()
         touched_last = [e for e in ws if F(SW, "last_heartbeat") in e[2]]
         rep.obligation(not touched_last, P + "/R11.3/reset-keeps-last", "reset changes last_heartbeat", where(rs), sample="reset keeps last_heartbeat")
-        fields = {e[2][-1][2] for e in ws if e[2]}
+        def fname(path):
+            fs = [x for x in path if x[0] == "f"]
+            return fs[-1][2] if fs else None
+        fields = {fname(e[2]) for e in ws if e[2]}
         rep.obligation({"index", "is_filled", "sum"} <= fields, P + "/R11.3/reset-clears", "reset clears only %s" % sorted(fields), where(rs),
                        sample="reset: index, is_filled, sum cleared")
         for e in ws:
-            nm = e[2][-1][2]
+            nm = fname(e[2])
             want = {"index": 0, "is_filled": False, "sum": 0}.get(nm)
             if want is not None:
                 rep.obligation(e[3][0] == "c" and e[3][1] == want, P + "/R11.3/reset-value/%s" % nm, "reset sets %s := %s" % (nm, sym.fmt(e[3])), where(rs))
